@@ -67,7 +67,7 @@ def run(pid, tier, seed):
     try:
         binp = pool.build_pool_harness(scratch)
         depth = 4 if tier == "quick" else 6
-        optsets = [1, 2, 3, 4, 5, 6, 7, 8, 10] if tier == "quick" else [1, 2, 3, 4, 5, 6, 7, 8, 9, 10]
+        optsets = [1, 2, 3, 4, 5, 6, 7, 8, 10, 11] if tier == "quick" else [1, 2, 3, 4, 5, 6, 7, 8, 9, 10, 11]
         problems, stats = [], []
         cfgp = scratch.path("GCPME_bfs.cfg")
         write_cfg(cfgp, depth, "bfs", FAM[pid], optsets)
@@ -85,7 +85,7 @@ def run(pid, tier, seed):
             hists = hists[:lim]
         simn, simd = (3, 10) if tier == "quick" else (40, 16)
         cfgs = scratch.path("GCPME_sim.cfg")
-        write_cfg(cfgs, simd, "sim", FAM[pid], [1, 2, 3, 4, 5, 6, 7, 8, 9, 10], ticks=(1, 6))
+        write_cfg(cfgs, simd, "sim", FAM[pid], [1, 2, 3, 4, 5, 6, 7, 8, 9, 10, 11], ticks=(1, 6))
         r2 = vlib.tlc(scratch, "GCPME", cfgs, workers=16, timeout=900, simulate="num=%d" % simn, depth=simd + 1, seed=seed, tag="gcpme-sim")
         mm = re.findall(r"The number of states generated: (\d+)", r2["out"])
         transitions += int(mm[-1]) if mm else 0
